@@ -41,14 +41,14 @@ CLAIMED["C13"] = {
           "printing never panics and prints the 1-based line and character column; the pre-fix char-index algorithm is refuted with witnesses (F2/F3 regression guard). Tied to the code on each run "
           "by driving util::CharCounter on every byte index of exhaustive and random multi-byte texts and comparing what report.rs prints for every message with the model. Fault localisation "
           "(5 fault kinds x position x non-ASCII context x included file) and location validity of every message of corpus mutants are checked by evaluating the property's predicate on the "
-          "implementation's structured messages (guarded hook).",
+          "implementation's structured messages (guarded hook). The `#bankdef` field parser is modelled with located errors (Model/AsmFields.v, refining the parser model): every field span is its name token; an unknown/duplicate field is reported at the name token of the first faulty field for every block shape; implementation AST and first-error span = extracted model on generated field blocks and the corpus. Whole message trees (every nested location and excerpt) and include chains are checked on the implementation.",
   "design_ref": "6/C13", "note": COMMON_NOTE + " Fault localisation and span validity are differential/monitored, not proved. Known finding F51.",
   "technique": "Coq proofs (induction over texts, byte/char loop refinement through UTF-8) + differential correspondence + spec monitor on structured messages via the guarded hook"}
 CLAIMED["C14"] = {
   "text": "Theorems for all inputs about the model of filename_navigate (reference normaliser, confinement, <std>), of include expansion over an arbitrary file-system oracle (termination, "
           "cycle => error, #once <= 1 expansion, splice-in-place soundness) and of the incbin/incbinstr/inchexstr range logic (exact characterisation, no panic). Tied to the code on each run by "
           "~400k exhaustive path spellings, generated include graphs on the mock file server, all small ranges, and the real binary in a scratch tree with sentinel files outside it; the reference "
-          "normaliser and confinement predicate are evaluated on the implementation's own answers.",
+          "normaliser and confinement predicate are evaluated on the implementation's own answers. C14_real_lookup_verbatim: outside the embedded table the file server returns the disk content unchanged (tie: real binary on files whose bytes look like text-layer markers). The call-site rule is checked at 18 kinds of call site (F74 fixed, F75 known).",
   "design_ref": "6/C14", "note": COMMON_NOTE + " Known findings F46 (`.` in the current path), F47 (<std> falls through to a real directory), F50 (#include inside #if ignored).",
   "technique": "Coq proof (fuel induction with seen-stack measure, cycle closure argument, lia/nia for usize arithmetic) + differential correspondence impl/model/spec incl. process-level runs"}
 CLAIMED["C18"] = {
@@ -74,7 +74,7 @@ CLAIMED["C02"] = {
   "text": "Proved for every program, budget and matcher mode of the model: a pass that reports 'resolved' changes nothing (all stability tests compare value and size), every success of "
           "resolve_iteratively ends in a state from which a strict pass recomputes every label, constant, instruction, data element, #res/#align/#addr to exactly what the state holds, "
           "the output is built from that state, the pass count is within the budget, and there is no other path to output. The extracted certificate is evaluated on the IMPLEMENTATION's own "
-          "results (state reconstructed from its symbol values and emitted bits) for cascading programs x budgets 1..30 x both switches; implementation = extracted model (bits, symbols, pass count).",
+          "results (state reconstructed from its symbol values and emitted bits) for cascading programs x budgets 1..30 x both switches; implementation = extracted model (bits, symbols, pass count). Extended after round-3: `#assert` directives are a node kind of the Resolver2 model (a certified state satisfies every assertion; a program whose assertion is true in no certified state assembles at no budget), and a certified state holds no failed assertion in a constant (F77 fixed).",
   "design_ref": "6/C02", "note": COMMON_NOTE + RESOLVER_NOTE,
   "technique": "Coq proof (invariant labels_ok, per-node fixed-point lemmas, induction over the loop) + extracted certificate checker on implementation output + differential correspondence"}
 CLAIMED["C07"] = {
@@ -97,7 +97,7 @@ CLAIMED["C08"] = {
 CLAIMED["C09"] = {
   "text": "Proved for every program of the model: if it assembles with budget b it assembles to the identical output and symbol values with every larger budget (mode agreement: a resolved strict pass is reproduced by the "
           "guessing pass, via monotonicity of the evaluator in its variable provider; fixed-point persistence), and the reported pass count never exceeds the budget. On every run the implementation is assembled under budgets "
-          "1,2,3,4,5,10,11,30: success at b must be reproduced identically at every larger budget; implementation = extracted model at every budget (bits, symbols, pass count).",
+          "1,2,3,4,5,10,11,30: success at b must be reproduced identically at every larger budget; implementation = extracted model at every budget (bits, symbols, pass count). Asm blocks: proved that an unsettled block hands the enclosing pass nothing but Unknown and that a value a block yields is reproduced at every larger round budget (for the modelled line resolver without hypotheses); the whole-program extension to programs with asm blocks is refuted (F78, known finding, reproduced on the real binary). `#assert` directives: in Resolver2 (budget monotonicity kept; a run with an #assert uses exactly the budget).",
   "design_ref": "6/C09", "note": COMMON_NOTE + RESOLVER_NOTE + " Asm blocks (inner loop reusing the budget) are outside the proved fragment; they are covered by a budget sweep 1..16, 30 on the implementation (macro programs, unsettled-block family). The command-line budget (`-t N` at every position / output group, real binary) is compared with the library at budget N.",
   "technique": "Coq proof (generic loop theory instantiated; eval_mono; mode agreement per node kind) + budget-sweep metamorphic comparison + differential correspondence"}
 CLAIMED["C03"] = {
@@ -106,7 +106,7 @@ CLAIMED["C03"] = {
           "no output => >=1 error and error flag; the code's own assert!/unwraps cannot fire; driver Ok => exit 0 and one action per group, Err => exit != 0 and nothing printed/written unless the error is a failed write; "
           "the pre-fix shape is refuted with F1/F31 witnesses. Table obligation re-proved each run: the call sequence regenerated from src/asm/mod.rs, driver.rs, main.rs, report.rs equals the modelled shape. "
           "Observed on every run: the property's predicate (exactly one of clean success / loud failure, never panic/signal/timeout) on ~39k library-level token mutants of the corpus and of generated programs "
-          "(non-ASCII anywhere, all option combinations), ~5k driver + single-permanent-I/O-fault cases on a logging mock file server and ~1.5k real-binary runs.",
+          "(non-ASCII anywhere, all option combinations), ~5k driver + single-permanent-I/O-fault cases on a logging mock file server and ~1.5k real-binary runs. The shape model speaks of an error at ANY depth of the message tree and carries the extra obligation T1 (a phase that returns Ok pushed errors only as top-level Errors); without T1 the shape is shown to deliver output together with a printed error. has_errors() is compared with the message tree through the hook on every run.",
   "design_ref": "6/C03", "note": COMMON_NOTE + " The per-phase obligations are assumed (checked by reading, exercised by the streams), not proved of the Rust code; panics inside phases, stack overflow, OOM and non-termination are observed only (C19 owns limits). Known finding F64 (unwritable stdout/stderr panics).",
   "technique": "Coq (generic shape interpreter, vm_compute table obligations over the translated call sequence, refutation witnesses) + spec-predicate monitoring of library/driver/real-binary runs under token-level mutation and single I/O faults"}
 CLAIMED["C10"] = {
@@ -121,7 +121,7 @@ CLAIMED["C12"] = {
   "text": "Proved for all bit vectors, span lists, file sets and symbol trees: the rows computed by the modelled annotated / tcgame / addrspan formatters list every span exactly once in output order with position "
           "(offset / group_bits, offset mod group_bits), address, digits that expand to the item's bits zero-padded, and source text or line/column (C13's function); digits round-trip for bases 2..128; the symbol file lists exactly the "
           "emitted declared symbols in per-level declaration order whatever the hash order; the Mesen offset formula with its >= 0 guard. Tied to the code on each run: implementation text = extracted model text on generated multi-bank, "
-          "bit-granular programs with includes, nested labels and suppressed constants x bases x group sizes; the extracted row/symbol checkers and an independent Python reading are evaluated on the implementation's own text against its own spans, bits and symbols.",
+          "bit-granular programs with includes, nested labels and suppressed constants x bases x group sizes; the extracted row/symbol checkers and an independent Python reading are evaluated on the implementation's own text against its own spans, bits and symbols. Over the Resolver2 pipeline (banks, per-bank cursors) the address clause and the one-item-per-row clause are theorems (C12_pipeline_addresses, C12_pipeline_one_item, C12_pipeline_row_digits): every span build_output records is located at bank addr + position/unit, has the size and bits of exactly one item, and spans are disjoint; implementation spans = extracted model spans on bank programs.",
   "design_ref": "6/C12", "note": COMMON_NOTE + " Character-level rendering (widths, padding) is stated, unproved, and checked on every generated case. F53 (rows showing bits of the next item) was found by this property and fixed.",
   "technique": "Coq proof (layout-level model + declarative row checkers) + differential correspondence + extracted checkers on implementation output + sensitivity controls"}
 CLAIMED["C15"] = {
@@ -135,22 +135,22 @@ CLAIMED["C16"] = {
   "text": "Proved for all #if trees, define lists and both settings of the static switch about the model of the first loop of assemble: the condition evaluator is monotone in the information order; if the loop ends Ok the final node list "
           "equals the direct interpreter `select` under the final valuation with every met condition decided; every declaration belongs to a node of the selected world; a define's value is the final value of the same-named constant and the "
           "only definite value it ever had; every define names a declared constant; override and unused check agree on hierarchical names. Tied to the code on each run by generated #if/#elif/#else trees to depth 4 x real -d arguments "
-          "through the private driver (debug+release, both switches): implementation = extracted model; extracted `select` evaluated on the implementation's own symbol table; program vs its selected world.",
+          "through the private driver (debug+release, both switches): implementation = extracted model; extracted `select` evaluated on the implementation's own symbol table; program vs its selected world. C16_loop_complete: if the declare/resolve/splice loop ends Ok, no constant is still becoming known (the count characterisation rc_all), for forward chains of any length.",
   "design_ref": "6/C16", "note": COMMON_NOTE + " Known finding F55 (nested symbol across #if). Fuel sufficiency and absence of panic values of the model are monitored at run time, not proved.",
   "technique": "Coq proof (induction on expressions; loop invariant preserved by collect/resolve/splice; induction on fuel) + differential correspondence + extracted spec on implementation output + metamorphic"}
 CLAIMED["C19"] = {
   "text": "PARTIAL BY NATURE. Logical part proved for all inputs: every numeric guard (shift amount, slice bounds, #dN/uN widths, #res/#align/#addr, all #bankdef fields incl. size*bits and outp, output positions/fill vs BIGINT_MAX_BITS, "
           "incbin ranges, annotated group) never overflows, rejects above its bound before the protected loop/allocation, and bounds the accepted work by BIGINT_MAX_BITS; parser, block and eval depth counters are bounded by the "
           "regenerated limits (<= 64 / <= 32, table obligations) and reject beyond them. Runtime part (stack, memory, time) is exhibited, not proved: real binary, debug+release, ulimit -s 8192 -v 4 GiB, 20 s, on nesting 10..10^4 (10^5 thorough), "
-          "recursion cycles of length 1..4, magnitudes 2^k+-1 (k <= 70); crate vs extracted guard model (outcome class, label value, debug vs release divergence = silent wrap).",
-  "design_ref": "6/C19", "note": COMMON_NOTE + " Refuted at model level and reproduced on the binary (known findings): F11, F48, F56, F57, F58, F61, F62; observed only: F12, F59, F60. Frame sizes / allocator / wall time are runtime facts outside any theorem.",
+          "recursion cycles of length 1..4, magnitudes 2^k+-1 (k <= 70); crate vs extracted guard model (outcome class, label value, debug vs release divergence = silent wrap). After the repairs F57/F76 the nesting an accepted program reaches is linear in the limit (C19_nesting_linear, C19_expr_depth_cumulative, C19_depth_interleaved_blocks); C19_no_overflow_positions: every position-advancing path of the cursor model is checked.",
+  "design_ref": "6/C19", "note": COMMON_NOTE + " Refuted at model level and reproduced on the binary (known findings): F11, F48, F56, F58, F61, F62 (F57, F76 fixed); observed only: F12, F59, F60. Frame sizes / allocator / wall time are runtime facts outside any theorem.",
   "technique": "instrumented Gallina guard model + depth state machines; theorems over Z/N; table obligations against Generated.v; differential correspondence crate/extracted model and binary/model; resource-limited process runs"}
 CLAIMED["C17"] = {
   "text": "Proved for all blocks: when the modelled asm-block inner loop returns a value it is the in-place meaning (every block label equals the address where it lies, every line's encoding is its resolution at its in-place position "
           "under those labels, the value is their concatenation); every other outcome is Unknown-while-guessing or an error, never a stale value in strict mode; substitution replaces exactly the {name} occurrences (for ordered non-overlapping lists); "
           "a user-function call = its body under exactly the parameter bindings, wrong arity = error; depth >= limit = error for blocks and functions (limit from the translated constant). The models are standalone (abstract over the one-line "
           "resolver) and tied to the code by evaluating the property itself on the implementation on every run: macro program vs hand-inlined program (bits and global symbols, when the inlined program is size-static per the extracted denotation; "
-          "certificate search otherwise), function calls vs substituted expressions, recursion cycles and depth limits, plus implementation(inlined) = extracted model/denotation.",
-  "design_ref": "6/C17", "note": COMMON_NOTE + " Whole-program integration of asm blocks and functions into the resolver model is not done. Known findings F66, F67, F68, F69 (F65 fixed).",
+          "certificate search otherwise), function calls vs substituted expressions, recursion cycles and depth limits, plus implementation(inlined) = extracted model/denotation. Budget theorems for the block's inner loop (C17_block_no_leak, C17_block_budget_monotone[_resolver], refutation of budget independence of the Unknown/value outcome = F78).",
+  "design_ref": "6/C17", "note": COMMON_NOTE + " Whole-program integration of asm blocks and functions into the resolver model is not done. Known findings F66, F67, F68, F69, F78 (F65 fixed).",
   "technique": "Coq proof (induction over the block's node list with the stable-round fixed-point shape; conservative-extension theorem for the function evaluator) + metamorphic differential streams G-macro / G-fn + directed known-defect families"}
 NOT_CLAIMED = {}
